@@ -15,3 +15,24 @@ package expanders
 //@   ghostset before "dst = h.Sum(nil)": hs = hst(h)
 //@   loop for(i <= ell)
 //@     invariant true
+
+// expand_message_xof (RFC 9380, 5.3.2/5.3.3): the tag is used AS GIVEN whenever it fits in one length byte; the string
+// absorbed is exactly  msg || I2OSP(len_in_bytes, 2) || DST || I2OSP(len(DST), 1)  (message first, requested length on
+// two bytes, the tag followed by its own one-byte length last) and exactly len_in_bytes bytes are returned.
+//@ func (*Xof).ExpandMessage
+//@   property C19
+//@   assert before "dstPrime := slices.Concat(dst, i2osp(uint64(len(dst)), 1))": len(old(dst)) <= 255 ==> dst == old(dst)
+//@   assert before "_, _ = h.Write(msgPrime)": msgPrime == slices.Concat(msg, i2osp(lenInBytes, 2), slices.Concat(dst, i2osp(len(dst), 1))) && lenInBytes <= 65535
+//@   ensures len(result) == lenInBytes
+
+// I2OSP as implemented: the big-endian string of the requested length whose byte k from the RIGHT is byte k of the
+// 8-byte little-endian encoding of the integer (k < 8) and zero beyond the eighth byte; in particular the last byte
+// is the least significant one and the length is exactly the requested one, for every length.
+//@ func i2osp
+//@   property C19
+//@   purefn
+//@   uses revbytes
+//@   nopanic
+//@   ensures len(result) == length
+//@   ensures forall k int :: 0 <= k && k < length && k < 8 ==> result[length - 1 - k] == le64(in)[k]
+//@   ensures forall k int :: 8 <= k && k < length ==> result[length - 1 - k] == 0
